@@ -183,6 +183,12 @@ def case_strategy():
         st.integers(BIG, BIG + 10**6).map(str),
         st.integers(0, 5000))
 
+    # attribute keys are opaque strings: white space, a leading dot and
+    # twins that differ only by them are legal keys
+    HDR_KEYS = ["service.name", "ver", "app name", "appname"]
+    SPAN_KEYS = ["http.method", "http.response", "http status",
+                 ".legacy.status", "legacy.status"]
+
     @st.composite
     def attrs(draw, keys):
         present = [k for k in keys if draw(st.integers(0, 5)) > 0]
@@ -221,7 +227,7 @@ def case_strategy():
         d = {}
         hdr = {}
         maybe(draw, hdr, "name", draw(ident))
-        maybe(draw, hdr, "attributes", draw(attrs(["service.name", "ver"])))
+        maybe(draw, hdr, "attributes", draw(attrs(HDR_KEYS)))
         maybe(draw, d, HEADER_OBJ[name], hdr)
         if level == len(names) - 1:
             maybe(draw, d, "trace_id", "t" + str(draw(st.integers(0, 3))))
@@ -233,7 +239,7 @@ def case_strategy():
             maybe(draw, d, "start_time_unix_nano", draw(tstamp))
             maybe(draw, d, "end_time_unix_nano", draw(tstamp))
             maybe(draw, d, "attributes",
-                  draw(attrs(["http.method", "http.response"])))
+                  draw(attrs(SPAN_KEYS)))
         else:
             slot = draw(st.integers(0, 14))
             nxt = names[level + 1]
@@ -255,7 +261,7 @@ def case_strategy():
         root = {}
         hdr = {}
         maybe(draw, hdr, "name", draw(ident))
-        maybe(draw, hdr, "attributes", draw(attrs(["service.name", "ver"])))
+        maybe(draw, hdr, "attributes", draw(attrs(HDR_KEYS)))
         maybe(draw, root, "meta", hdr)
         slot = draw(st.integers(0, 14))
         if slot == 0:
@@ -289,13 +295,13 @@ def case_strategy():
         if r in (6, 7):
             lvl = draw(st.integers(-1, depth - 1))
             hdr = "meta" if lvl < 0 else HEADER_OBJ[names[lvl]]
-            k = draw(st.sampled_from(["service.name", "ver", "absent"]))
+            k = draw(st.sampled_from(HDR_KEYS + ["absent"]))
             return (prefix(names, lvl) + hdr + ".attributes.[].key", k,
                     draw(st.sampled_from(["value.Value.StringValue",
                                           "value.Value.StringValue",
                                           "value.Value.IntValue"])))
         if r == 8:
-            k = draw(st.sampled_from(["http.method", "http.response"]))
+            k = draw(st.sampled_from(SPAN_KEYS))
             return (prefix(names, depth - 1) + "attributes.[].key", k,
                     draw(st.sampled_from(["value.Value.StringValue",
                                           "value.Value.StringValue",
